@@ -357,6 +357,13 @@ func c14r2(c *core.Ctx) {
 			}
 			n++
 			okc := fn == dispatch
+			for _, h := range VMTable(p).HelpersOf("Import", "FromImport") {
+				if h == fn && callersAreAll(p, fn, dispatch) {
+					// the body of the Import / FromImport clause, moved into a method of its own
+					c.Pass("vm."+declName(fd)+"|calls-importModule", posOf(p, ce), "importModule is called by a method that only the handlers of op.Import / op.FromImport hand their work to")
+					return true
+				}
+			}
 			if okc {
 				okc = false
 				for i := len(stack) - 1; i >= 0; i-- {
@@ -751,4 +758,32 @@ func c14r5(c *core.Ctx) {
 		}
 	}
 	c.Stat("globals_stores", n)
+}
+
+// callersAreAll: every static call of fn in its package is made by caller.
+func callersAreAll(p *core.Program, fn, caller *types.Func) bool {
+	sf := p.SSAFunc(fn)
+	if sf == nil {
+		return false
+	}
+	n := 0
+	for _, g := range repoFns(p, core.RelPkg(fn.Pkg())) {
+		for _, b := range g.Blocks {
+			for _, in := range b.Instrs {
+				for _, op := range in.Operands(nil) {
+					if *op == ssa.Value(sf) {
+						top := g
+						for top.Parent() != nil {
+							top = top.Parent()
+						}
+						if top.Object() != types.Object(caller) {
+							return false
+						}
+						n++
+					}
+				}
+			}
+		}
+	}
+	return n > 0
 }
